@@ -189,28 +189,108 @@ theorem wf_listKw (D : Defs) (k : String) (hk : k = "anyOf" ∨ k = "oneOf" ∨ 
   rcases hk with rfl | rfl | rfl <;>
     simp [wfDraft4, wfKws, kw, wfNode, kwOf, kwOfStr, wfListV, hs, hne]
 
-theorem wf_propsOf (D : Defs) : ∀ fields : List (String × PyVal),
-    (∀ n s, (n, s) ∈ fields → wfDraft4 D s = true) → wfProps D (propsOf [] fields) = true
+/-! ### `default` -/
+
+theorem c08_getKw_setKw_ne (k k' : String) (v : PyVal) (hne : (k' == k) = false) :
+    ∀ kvs : List (PyVal × PyVal), getKw k (setKw k' v kvs) = getKw k kvs
+  | [] => by simp [setKw, getKw, kw, keyIs, hne]
+  | (a, w) :: rest => by
+    simp only [setKw]
+    split
+    · rename_i h
+      -- the replaced entry's key is `k'`, not `k`
+      have ha : keyIs k a = false := by
+        cases a <;> simp [keyIs] at h ⊢
+        subst h
+        simpa using hne
+      simp [getKw, ha]
+    · simp only [getKw, c08_getKw_setKw_ne k k' v hne rest]
+
+/-- `wfNode` looks at the enclosing object only through `maximum` / `minimum` -/
+theorem c08_wfNode_ctx (D : Defs) (ctx ctx' : List (PyVal × PyVal)) (k v : PyVal) (one lst props : Unit → Bool)
+    (hmax : getKw "maximum" ctx' = getKw "maximum" ctx) (hmin : getKw "minimum" ctx' = getKw "minimum" ctx) :
+    wfNode D ctx' k v one lst props = wfNode D ctx k v one lst props := by
+  unfold wfNode
+  rw [hmax, hmin]
+
+theorem c08_wfKws_ctx (D : Defs) (ctx ctx' : List (PyVal × PyVal))
+    (hmax : getKw "maximum" ctx' = getKw "maximum" ctx) (hmin : getKw "minimum" ctx' = getKw "minimum" ctx) :
+    ∀ kws : List (PyVal × PyVal), wfKws D ctx' kws = wfKws D ctx kws
+  | [] => by simp [wfKws]
+  | (k, v) :: rest => by
+    simp only [wfKws, c08_wfNode_ctx D ctx ctx' k v _ _ _ hmax hmin, c08_wfKws_ctx D ctx ctx' hmax hmin rest]
+
+theorem c08_wfNode_default (D : Defs) (ctx : List (PyVal × PyVal)) (k v : PyVal) (one lst props : Unit → Bool)
+    (hk : keyIs "default" k = true) (hv : jsonOnly v = true) : wfNode D ctx k v one lst props = true := by
+  cases k <;> simp [keyIs] at hk
+  subst hk
+  simp [wfNode, kwOf, kwOfStr, keyIs, hv]
+
+theorem c08_wfKws_setKw_default (D : Defs) (ctx : List (PyVal × PyVal)) (v : PyVal) (hv : jsonOnly v = true) :
+    ∀ kws : List (PyVal × PyVal), wfKws D ctx kws = true → wfKws D ctx (setKw "default" v kws) = true
+  | [], _ => by
+    simp only [setKw, wfKws, Bool.and_true]
+    exact c08_wfNode_default D ctx _ v _ _ _ (by simp [kw, keyIs]) hv
+  | (k, w) :: rest, h => by
+    simp only [wfKws, and_true_iff'] at h
+    simp only [setKw]
+    split
+    · rename_i hk
+      simp only [wfKws, and_true_iff']
+      exact ⟨c08_wfNode_default D ctx k v _ _ _ hk hv, h.2⟩
+    · simp only [wfKws, and_true_iff']
+      exact ⟨h.1, c08_wfKws_setKw_default D ctx v hv rest h.2⟩
+
+/-- writing a JSON `default` into a well-formed schema keeps it well-formed -/
+theorem c08_wf_addDefault (D : Defs) (s : PyVal) (d : Option PyVal) (hs : wfDraft4 D s = true)
+    (hd : ∀ v, d = some v → jsonOnly (defaultJ v) = true) : wfDraft4 D (addDefault s d) = true := by
+  cases d with
+  | none => exact hs
+  | some v =>
+    cases s <;> simp [wfDraft4] at hs
+    rename_i kvs
+    simp only [addDefault, wfDraft4]
+    rw [c08_wfKws_ctx D kvs _ (c08_getKw_setKw_ne "maximum" "default" _ (by decide) kvs)
+      (c08_getKw_setKw_ne "minimum" "default" _ (by decide) kvs)]
+    exact c08_wfKws_setKw_default D kvs _ (hd v rfl) kvs hs
+
+theorem c08_lookup_mem {α} (n : String) (v : α) : ∀ xs : List (String × α), lookup n xs = some v →
+    ∃ k, (k, v) ∈ xs
+  | [], h => by simp [lookup] at h
+  | (k, w) :: rest, h => by
+    simp only [lookup] at h
+    split at h
+    · cases h; exact ⟨k, by simp⟩
+    · obtain ⟨k', hk'⟩ := c08_lookup_mem n v rest h
+      exact ⟨k', by simp [hk']⟩
+
+theorem c08_wf_propsOf (D : Defs) (defaults : List (String × PyVal)) (hd : defaultsJson defaults = true) :
+    ∀ fields : List (String × PyVal),
+    (∀ n s, (n, s) ∈ fields → wfDraft4 D s = true) → wfProps D (propsOf defaults fields) = true
   | [], _ => rfl
   | (n, s) :: rest, h => by
-    simp only [propsOf, lookup, addDefault, wfProps, kw, isStrJ, Bool.true_and, and_true_iff']
-    exact ⟨h n s (by simp), wf_propsOf D rest (fun n' s' hm => h n' s' (by simp [hm]))⟩
+    simp only [propsOf, wfProps, kw, isStrJ, Bool.true_and, and_true_iff']
+    refine ⟨c08_wf_addDefault D s _ (h n s (by simp)) ?_,
+      c08_wf_propsOf D defaults hd rest (fun n' s' hm => h n' s' (by simp [hm]))⟩
+    intro v hv
+    obtain ⟨k, hk⟩ := c08_lookup_mem n v defaults hv
+    simp only [defaultsJson, List.all_eq_true] at hd
+    exact hd (k, v) hk
 
-theorem wf_classObj (D : Defs) (c : ClassOpts) (fields : List (String × PyVal))
-    (hreq : (schemaRequired c []).isEmpty = false) (hnd : nodupS (schemaRequired c []) = true)
+theorem c08_wf_classObj (D : Defs) (c : ClassOpts) (defaults : List (String × PyVal))
+    (fields : List (String × PyVal))
+    (hreq : (schemaRequired c defaults).isEmpty = false) (hnd : nodupS (schemaRequired c defaults) = true)
+    (hd : defaultsJson defaults = true)
     (hf : ∀ n s, (n, s) ∈ fields → wfDraft4 D s = true) :
-    wfDraft4 D (classObj c [] fields) = true := by
-  have hsr : schemaRequired c [] = c.required := by simp [schemaRequired]
-  rw [hsr] at hreq hnd
+    wfDraft4 D (classObj c defaults fields) = true := by
   unfold classObj
-  rw [hsr]
   simp only [wfDraft4, wfKws, and_true_iff', Bool.and_true]
   refine ⟨?_, ?_, ?_, ?_⟩
   · simp [kw, wfNode, kwOf, kwOfStr, wfLeaf, simpleType]
-  · simp [kw, wfNode, kwOf, kwOfStr, wfPropsV, wf_propsOf D fields hf]
+  · simp [kw, wfNode, kwOf, kwOfStr, wfPropsV, c08_wf_propsOf D defaults hd fields hf]
   · simp only [kw, wfNode, kwOf, kwOfStr, wfLeaf]
-    simp [jsonNodup_map_str c.required hnd, isStrJ]
-    cases hc : c.required with
+    simp [jsonNodup_map_str _ hnd, isStrJ]
+    cases hc : schemaRequired c defaults with
     | nil => simp [hc] at hreq
     | cons a as => simp
   · simp [kw, wfNode, kwOf, kwOfStr]
@@ -231,7 +311,7 @@ theorem emitL_isEmpty (fx : Bool) (fs : List FieldDecl) : (emitL fx fs).isEmpty 
   cases fs <;> simp [emitL]
 
 mutual
-theorem wf_field (D : Defs) : ∀ f : FieldDecl, wfFragF f = true → RefsFaithful D f →
+theorem wf_field (D : Defs) : ∀ f : FieldDecl, wfFragF f = true → RefsResolve D f →
     wfDraft4 D (emit true f) = true
   | .number o, hf, _ => by
     simp only [wfFragF] at hf; simp only [emit]; exact wf_numKws D "number" (Or.inl rfl) false o hf
@@ -259,12 +339,12 @@ theorem wf_field (D : Defs) : ∀ f : FieldDecl, wfFragF f = true → RefsFaithf
     exact wf_arrKws D sz true none (fun _ => rfl)
   | .seqOf _ f sz, hf, hrf => by
     simp only [wfFragF, and_true_iff'] at hf
-    simp only [RefsFaithful] at hrf
+    simp only [RefsResolve] at hrf
     simp only [emit]
     exact wf_arrKws D sz true (some (emit true f)) (fun ctx => wf_itemsSingle D ctx _ (wf_field D f hf.2 hrf))
   | .seqPos _ fs addl sz, hf, hrf => by
     simp only [wfFragF, and_true_iff'] at hf
-    simp only [RefsFaithful] at hrf
+    simp only [RefsResolve] at hrf
     simp only [emit]
     refine wf_arrKws D sz addl (some (.list (emitL true fs))) (fun ctx => wf_itemsList D ctx _ ?_ ?_)
     · rw [emitL_isEmpty]; simpa using hf.1.2
@@ -273,18 +353,18 @@ theorem wf_field (D : Defs) : ∀ f : FieldDecl, wfFragF f = true → RefsFaithf
     simp only [emit]; exact wf_setKws D sz none (fun _ => rfl)
   | .setOf _ f sz, hf, hrf => by
     simp only [wfFragF] at hf
-    simp only [RefsFaithful] at hrf
+    simp only [RefsResolve] at hrf
     simp only [emit]
     exact wf_setKws D sz (some (emit true f)) (fun ctx => wf_itemsSingle D ctx _ (wf_field D f hf hrf))
   | .tupleOf f u, hf, hrf => by
     simp only [wfFragF] at hf
-    simp only [RefsFaithful] at hrf
+    simp only [RefsResolve] at hrf
     simp only [emit]
     exact wf_arrKws D { uniq := u } true (some (emit true f))
       (fun ctx => wf_itemsSingle D ctx _ (wf_field D f hf hrf))
   | .tuplePos fs u, hf, hrf => by
     simp only [wfFragF, and_true_iff'] at hf
-    simp only [RefsFaithful] at hrf
+    simp only [RefsResolve] at hrf
     simp only [emit]
     refine wf_tupKws D u (emitL true fs) ?_ (wfList_of D _ (wf_list D fs hf.2 hrf))
     rw [emitL_isEmpty]; simpa using hf.1
@@ -293,16 +373,14 @@ theorem wf_field (D : Defs) : ∀ f : FieldDecl, wfFragF f = true → RefsFaithf
     exact wf_mapKws D none none sz (fun _ h => by cases h)
   | .mapOf k v sz, hf, hrf => by
     simp only [wfFragF, and_true_iff'] at hf
-    simp only [RefsFaithful] at hrf
+    simp only [RefsResolve] at hrf
     simp only [emit]
     refine wf_mapKws D (some k) (some (emit true v)) sz ?_
     intro s hs; cases hs; exact wf_field D v hf.2 hrf
   | .struct c fields defaults, hf, hrf => by
     simp only [wfFragF, and_true_iff'] at hf
     obtain ⟨⟨⟨hreq, hnd⟩, hdef⟩, hfp⟩ := hf
-    have hdef' : defaults = [] := by simpa using hdef
-    subst hdef'
-    simp only [RefsFaithful] at hrf
+    simp only [RefsResolve] at hrf
     simp only [emit]
     cases hin : c.inline with
     | false =>
@@ -310,16 +388,16 @@ theorem wf_field (D : Defs) : ∀ f : FieldDecl, wfFragF f = true → RefsFaithf
       apply wf_refTo
       rcases hrf.1 with h | h
       · simp [hin] at h
-      · simp [h]
+      · exact h
     | true =>
       simp only [if_true]
       rw [retype_classObj]
-      refine wf_classObj D c _ (by simpa using hreq) hnd ?_
+      refine c08_wf_classObj D c defaults _ (by simpa using hreq) hnd hdef ?_
       intro n s hm
       obtain ⟨f, hmf, rfl⟩ := emitP_mem true n s fields hm
       exact wf_fields D fields hfp hrf.2 n f hmf
   | .anyOf fs, hf, hrf => by
-    simp only [RefsFaithful] at hrf
+    simp only [RefsResolve] at hrf
     simp only [emit]
     cases hos : optShape fs with
     | true =>
@@ -341,19 +419,19 @@ theorem wf_field (D : Defs) : ∀ f : FieldDecl, wfFragF f = true → RefsFaithf
       rw [emitL_isEmpty]; simpa using hf.1
   | .oneOf fs, hf, hrf => by
     simp only [wfFragF, and_true_iff'] at hf
-    simp only [RefsFaithful] at hrf
+    simp only [RefsResolve] at hrf
     simp only [emit]
     refine wf_listKw D "oneOf" (Or.inr (Or.inl rfl)) _ ?_ (wfList_of D _ (wf_list D fs hf.2 hrf))
     rw [emitL_isEmpty]; simpa using hf.1
   | .allOf fs, hf, hrf => by
     simp only [wfFragF, and_true_iff'] at hf
-    simp only [RefsFaithful] at hrf
+    simp only [RefsResolve] at hrf
     simp only [emit]
     refine wf_listKw D "allOf" (Or.inr (Or.inr rfl)) _ ?_ (wfList_of D _ (wf_list D fs hf.2 hrf))
     rw [emitL_isEmpty]; simpa using hf.1
   | .notF fs, hf, hrf => by
     simp only [wfFragF, and_true_iff'] at hf
-    simp only [RefsFaithful] at hrf
+    simp only [RefsResolve] at hrf
     have hne : (emitL true fs).isEmpty = false := by rw [emitL_isEmpty]; simpa using hf.1
     have hl : wfList D (emitL true fs) = true := wfList_of D _ (wf_list D fs hf.2 hrf)
     simp only [emit, notVal, if_true]
@@ -361,23 +439,23 @@ theorem wf_field (D : Defs) : ∀ f : FieldDecl, wfFragF f = true → RefsFaithf
   | .noneF, hf, _ => by simp [wfFragF] at hf
   | .anything, hf, _ => by simp [wfFragF] at hf
 
-theorem wf_list (D : Defs) : ∀ fs : List FieldDecl, wfFragL fs = true → RefsFaithfulL D fs →
+theorem wf_list (D : Defs) : ∀ fs : List FieldDecl, wfFragL fs = true → RefsResolveL D fs →
     ∀ s ∈ emitL true fs, wfDraft4 D s = true
   | [], _, _, s, h => by simp [emitL] at h
   | f :: fs, hf, hrf, s, h => by
     simp only [wfFragL, and_true_iff'] at hf
-    simp only [RefsFaithfulL] at hrf
+    simp only [RefsResolveL] at hrf
     simp only [emitL] at h
     rcases List.mem_cons.mp h with rfl | h'
     · exact wf_field D f hf.1 hrf.1
     · exact wf_list D fs hf.2 hrf.2 s h'
 
-theorem wf_opt (D : Defs) : ∀ fs : List FieldDecl, wfFragOpt fs = true → RefsFaithfulL D fs →
+theorem wf_opt (D : Defs) : ∀ fs : List FieldDecl, wfFragOpt fs = true → RefsResolveL D fs →
     ∀ f ∈ fs, isNoneF f = false → wfDraft4 D (emit true f) = true
   | [], _, _, _, h, _ => by simp at h
   | g :: fs, hf, hrf, f, hm, hnf => by
     simp only [wfFragOpt, and_true_iff'] at hf
-    simp only [RefsFaithfulL] at hrf
+    simp only [RefsResolveL] at hrf
     rcases List.mem_cons.mp hm with heq | hm'
     · have heq' := heq.symm
       subst heq'
@@ -385,11 +463,11 @@ theorem wf_opt (D : Defs) : ∀ fs : List FieldDecl, wfFragOpt fs = true → Ref
     · exact wf_opt D fs hf.2 hrf.2 f hm' hnf
 
 theorem wf_fields (D : Defs) : ∀ fields : List (String × FieldDecl), wfFragP fields = true →
-    RefsFaithfulP D fields → ∀ n f, (n, f) ∈ fields → wfDraft4 D (emit true f) = true
+    RefsResolveP D fields → ∀ n f, (n, f) ∈ fields → wfDraft4 D (emit true f) = true
   | [], _, _, _, _, h => by simp at h
   | (k, g) :: fields, hf, hrf, n, f, hm => by
     simp only [wfFragP, and_true_iff'] at hf
-    simp only [RefsFaithfulP] at hrf
+    simp only [RefsResolveP] at hrf
     rcases List.mem_cons.mp hm with heq | hm'
     · have heq' : g = f := (Prod.mk.inj heq).2.symm
       subst heq'
@@ -399,17 +477,17 @@ end
 
 /-- `schema_wellformed` for the schema of a top-level class (every `$ref` in it resolves) -/
 theorem wf_class (D : Defs) (cls : FieldDecl) (hfrag : inWfFragment cls = true)
-    (hrefs : ClassRefsFaithful D cls) : wfDraft4 D (classSchema true cls) = true := by
+    (hrefs : ClassRefsResolve D cls) : wfDraft4 D (classSchema true cls) = true := by
   cases cls with
   | struct c fields defaults =>
     simp only [inWfFragment, and_true_iff'] at hfrag
     obtain ⟨hni, hrest⟩ := hfrag
-    simp only [ClassRefsFaithful] at hrefs
+    simp only [ClassRefsResolve] at hrefs
     simp only [classSchema]
     cases hcol : collapses c (fields.map (·.1)) with
     | true =>
-      simp only [hcol, if_true, and_true_iff'] at hrest
-      obtain ⟨hdef, hfp⟩ := hrest
+      simp only [hcol, if_true] at hrest
+      have hfp := hrest
       unfold structShape
       rw [emitP_names]
       simp only [hcol, if_true]
@@ -423,12 +501,10 @@ theorem wf_class (D : Defs) (cls : FieldDecl) (hfrag : inWfFragment cls = true)
     | false =>
       simp only [hcol, Bool.false_eq_true, if_false, wfFragF, and_true_iff'] at hrest
       obtain ⟨⟨⟨hreq, hnd⟩, hdef⟩, hfp⟩ := hrest
-      have hdef' : defaults = [] := by simpa using hdef
-      subst hdef'
-      have hs : structShape c [] (emitP true fields) = classObj c [] (emitP true fields) := by
+      have hs : structShape c defaults (emitP true fields) = classObj c defaults (emitP true fields) := by
         unfold structShape; rw [emitP_names]; simp [hcol]
       rw [hs]
-      refine wf_classObj D c _ (by simpa using hreq) hnd ?_
+      refine c08_wf_classObj D c defaults _ (by simpa using hreq) hnd hdef ?_
       intro n s hm
       obtain ⟨f, hmf, rfl⟩ := emitP_mem true n s fields hm
       exact wf_fields D fields hfp hrefs n f hmf
